@@ -26,7 +26,8 @@ CONSTANTS MaxActs,
           WSpecials,    \* set of specials sequences usable as content (without arguments)
           ArglessMacros,\* names of macros without arguments usable as single-token arguments
           Features,     \* subset of {"group","math","display","comment","par","space","fault","commenteof","argtoken"}
-          Faults        \* set of fault token texts (sequences of code points)
+          Faults,       \* set of fault token texts (sequences of code points)
+          DiscardMacros \* names of macros whose conversion to text discards them with their arguments (C12 markers)
 
 VARIABLES src, stk, last, forbid, forbidnow, n, mk, done, faulted
 vars == <<src, stk, last, forbid, forbidnow, n, mk, done, faulted>>
@@ -39,6 +40,7 @@ InArgs == Top.k \in {"call", "envcall"} /\ Len(Top.args) < Len(Top.sig)
 Slot == Top.sig[Len(Top.args) + 1]
 CanContent == ~InArgs /\ Top.k # "call"
 InMath == \E i \in 1..Len(stk) : stk[i].k = "math" \/ (stk[i].k \in {"env", "envcall"} /\ stk[i].bodykind = "math")
+InDiscard == \E i \in 1..Len(stk) : stk[i].k = "call" /\ stk[i].name \in DiscardMacros
 AddChild(c) == [stk EXCEPT ![Len(stk)].body = Append(@, c)]
 Letter(c) == c \in (65..90) \cup (97..122)
 
@@ -68,9 +70,9 @@ Digit == <<48 + (mk % 10)>>
 
 (* ---- content -------------------------------------------------------------------------- *)
 Text == /\ CanContent
-        /\ LET w == IF InMath THEN <<120>> \o Digit ELSE <<97>> IN
+        /\ LET w == IF InDiscard THEN <<100>> \o Digit ELSE IF InMath THEN <<120>> \o Digit ELSE <<97>> IN
            Write(w, AddChild(N("chars", w, <<>>, <<>>, <<>>)), "text")
-        /\ mk' = IF InMath THEN mk + 1 ELSE mk
+        /\ mk' = IF InMath \/ InDiscard THEN mk + 1 ELSE mk
 (* "[a]" written as plain text (not an argument): only where no optional-argument group is open *)
 BracketText == /\ "bracket" \in Features /\ CanContent /\ ~InMath
                /\ \A i \in 1..Len(stk) : stk[i].k # "optgroup"
@@ -82,7 +84,7 @@ Par == /\ "par" \in Features /\ CanContent /\ ~InMath /\ last \notin {"start", "
        /\ src' = src \o <<10, 10>> /\ last' = "space" /\ forbidnow' = {}
        /\ stk' = AddChild(N("par", <<>>, <<>>, <<>>, <<>>))
        /\ n' = n + 1 /\ UNCHANGED <<forbid, mk, done, faulted>>
-Comment == /\ "comment" \in Features
+Comment == /\ "comment" \in Features /\ ~InMath /\ ~InDiscard
            /\ (CanContent \/ (InArgs /\ Slot.k = "m" /\ Slot.pre /\ Top.k = "call"))
            /\ LET w == <<99>> \o Digit IN
               /\ OkFirst(37)
@@ -98,7 +100,9 @@ OpenGroup == /\ "group" \in Features /\ CanContent
 CloseFrame(kinds, closetext, l) ==
     /\ Top.k \in kinds /\ CanContent
     /\ LET up == SubSeq(stk, 1, Len(stk) - 1)
-           node == N(IF Top.k = "math" THEN "math" ELSE "group", <<>>, Top.delims, <<>>, Top.body)
+           node == IF Top.k = "math"
+                   THEN N("math", <<Top.name[1], Len(src) + Len(closetext)>>, Top.delims, <<>>, Top.body)
+                   ELSE N("group", <<>>, Top.delims, <<>>, Top.body)
        IN IF Top.k \in {"arggroup", "optgroup", "delimgroup"}
           THEN Write(closetext, Settle([up EXCEPT ![Len(up)].args = Append(@, <<node>>)]), l)
           ELSE Write(closetext, [up EXCEPT ![Len(up)].body = Append(@, node)], l)
@@ -108,25 +112,27 @@ CloseOpt == Top.k = "optgroup" /\ CloseFrame({"optgroup"}, <<93>>, "sym")
 CloseDelim == Top.k = "delimgroup" /\ CloseFrame({"delimgroup"}, <<Top.delims[2]>>, "sym")
 MathDelims == { << <<36>>, <<36>> >>, << <<92, 40>>, <<92, 41>> >> } \cup
               (IF "display" \in Features THEN { << <<92, 91>>, <<92, 93>> >>, << <<36, 36>>, <<36, 36>> >> } ELSE {})
-OpenMath(d) == /\ "math" \in Features /\ CanContent /\ ~InMath
+OpenMath(d) == /\ "math" \in Features /\ CanContent /\ ~InMath /\ ~InDiscard
                /\ (d[1][1] = 36 => last # "dollar")
-               /\ Write(d[1], Append(stk, F("math", <<>>, <<>>, d, "")), "sym") /\ UNCHANGED mk
+               /\ Write(d[1], Append(stk, F("math", <<Len(src)>>, <<>>, d, "")), "sym") /\ UNCHANGED mk
 CloseMath == /\ Top.k = "math" /\ Top.body # <<>>
              /\ CloseFrame({"math"}, Top.delims[2], IF Top.delims[2][1] = 36 THEN "dollar" ELSE "sym")
 
 (* ---- calls ------------------------------------------------------------------------------ *)
 Call(m) == /\ CanContent
            /\ ~(InMath /\ \E i \in 1..Len(m[2]) : m[2][i].delta = "math")
+           /\ (m[1] \in DiscardMacros => ~InMath)      \* (a formula shown verbatim would show the discarded construct)
            /\ LET iscw == Letter(m[1][1]) IN
               Write(<<92>> \o m[1], Settle(Append(stk, F("call", m[1], m[2], <<>>, ""))), IF iscw THEN "cw" ELSE "sym")
            /\ UNCHANGED mk
 BeginEnv(e) == /\ CanContent /\ ~(InMath /\ e[3] = "math") /\ e[3] # "legacyverb"
+               /\ (e[3] = "math" => ~InDiscard)
                /\ Write(<<92, 98, 101, 103, 105, 110, 123>> \o e[1] \o <<125>>,
-                        Settle(Append(stk, F("envcall", e[1], e[2], <<>>, e[3]))), "sym")
+                        Settle(Append(stk, F("envcall", e[1], e[2], <<Len(src)>>, e[3]))), "sym")
                /\ UNCHANGED mk
 EndEnv == /\ Top.k = "env" /\ CanContent
           /\ LET up == SubSeq(stk, 1, Len(stk) - 1)
-                 node == N("env", Top.name, <<>>, Top.args, Top.body)
+                 node == N("env", Top.name, <<Top.delims[1], Len(src) + 6 + Len(Top.name)>>, Top.args, Top.body)
              IN Write(<<92, 101, 110, 100, 123>> \o Top.name \o <<125>>, [up EXCEPT ![Len(up)].body = Append(@, node)], "sym")
           /\ UNCHANGED mk
 VerbTexts == { <<97>>, <<37, 36, 92, 97>>, <<123, 98, 125>> }
